@@ -10,15 +10,15 @@ incarnations of the node.  The notify sites are the ones of `Raft::handle_intern
 `LeaderDiscovered(l, t)`, `NoopCommitted{term}`); the `elect` correspondence compares the log with the real
 `watch::Receiver` sampled after every internal event.
 
-* `notif_terms_monotone_partial` — per node, the terms of the published `Some(leader, term)` values never
-  decrease, on every schedule without a crash and without a learner restart (no other hypothesis).
-  The full statement is false after a crash (`notif_terms_monotone_false_F2`).
-* `NotifTruthfulStatement` — every published `(leader, term)` names a node that really became leader in that
-  term.  **False for the code as it is** (`notif_truthful_false_F28`): a leader that receives an AppendEntries
-  of a higher term enqueues `BecomeFollower(Some(new_leader))` *before* adopting the term, so
-  `{new_leader, old_term}` is published — on a schedule without any of the C01 triggers.
-* `notif_truthful_partial`, `notif_one_leader_per_term_partial` — truthful, and at most one notified leader
-  per term over all nodes, on every schedule that avoids the C01 triggers and the F28 trigger.
+History: as found, truthfulness was false (F28: a leader stepping down on a higher-term AppendEntries published
+`{new_leader, old_term}` — fixed 05b4801) and term monotonicity was false after a crash (F2 — fixed c4109f0) and
+for restarted learners (F31 — fixed b8fde38).  The model follows the fixed code; witnesses kept as regressions.
+
+* `notif_terms_monotone` — **full strength**: per node, the terms of the published `Some(leader, term)` values
+  never decrease, on every schedule (crashes, restarts, learners included); no hypothesis.
+* `notif_truthful` — every published `(leader, term)` is a recorded `BecomeLeader(leader, term)`, on every
+  schedule of a static-membership cluster under the C01 environment assumptions.
+* `notif_one_leader_per_term` — two notifications for the same term, on any two nodes, name the same leader.
 -/
 namespace DEngine.C31
 open DEngine.Elect DEngine.C01
@@ -30,112 +30,63 @@ def NoPubsYet (c : Cluster) : Prop := ∀ p, (c.proc p).node.pubs = []
 
 /-! ### terms of one node's notifications never decrease -/
 
-def NotifTermsMonotoneStatement : Prop :=
-  ∀ (c0 : Cluster) (ls : List Label) (p : Nat), Fresh c0 → NoPubsYet c0 →
-    sortedLE (pubTerms (pubsOf (run c0 ls) p)) = true
-
-/-- node 1 leads term 2, node 2 then leads term 3 and announces itself to node 3; node 3 crashes and restarts
-    with term 1; the heartbeat of the stale leader 1 (term 2) is accepted and published after `(2, 3)`. -/
+/-- former F2 witness: node 1 leads term 2, node 2 then leads term 3 and announces itself to node 3; node 3
+    crashes and restarts; the heartbeat of the stale leader 1 (term 2) arrives. -/
 def f2Notif : List Label :=
   [.timeout 1, .start 1, .deliver 1 2, .finish 1 true, .timeout 2, .start 2, .deliver 2 3, .finish 2 true,
    .heartbeat 2 3, .crash 3, .restart 3, .heartbeat 1 3]
 
-theorem f2_notifs : pubsOf (run c3 f2Notif) 3 = [some (2, 3), some (1, 2)] := by decide
+/-- regression: the restarted node still knows term 3 and rejects the stale leader -/
+theorem f2_notifs_regression : pubsOf (run c3 f2Notif) 3 = [some (2, 3)] := by decide
 
 theorem noPubsYet_c3 : NoPubsYet c3 := fun _ => rfl
 
-/-- **The code as it is violates C31** after a crash (F2: the term the node had reached is not persisted). -/
-theorem notif_terms_monotone_false_F2 : ¬ NotifTermsMonotoneStatement := by
-  intro h
-  have := h c3 f2Notif 3 (fresh_freshCluster _ _) noPubsYet_c3
-  rw [f2_notifs] at this
-  revert this; decide
-
-def noResetB (c : Cluster) : Label → Bool
-  | .crash _ => false
-  | .restart p => !(c.proc p).startLearner
-  | _ => true
-
-theorem noReset_of (c : Cluster) (l : Label) (h : noResetB c l = true) : NoReset c l ∧ ∀ p, l ≠ .crash p := by
-  cases l <;> simp_all [noResetB, NoReset]
-
-theorem pubOK_run : ∀ (ls : List Label) (c : Cluster), DInv c → traceAll noResetB c ls = true →
+theorem pubOK_run : ∀ (ls : List Label) (c : Cluster), DInv c →
     (∀ q, PubOK (c.proc q).node) → ∀ q, PubOK ((run c ls).proc q).node
-  | [], _, _, _, h => h
-  | l :: ls, c, hd, hs, h => by
-    simp only [traceAll, Bool.and_eq_true] at hs
-    obtain ⟨hnr, hnc⟩ := noReset_of c l hs.1
+  | [], _, _, h => h
+  | l :: ls, c, hd, h => by
     simp only [run, List.foldl_cons]
-    exact pubOK_run ls (step c l) (dinv_step c hd l hnc) hs.2 (fun q => pubOK_step c hd l hnr q (h q))
+    exact pubOK_run ls (step c l) (dinv_step c hd l) (fun q => pubOK_step c hd l q (h q))
 
 theorem pubOK_of_fresh {c : Cluster} (h : Fresh c) (hp : NoPubsYet c) (q : Nat) : PubOK (c.proc q).node :=
   ⟨by rw [hp q]; trivial, fun hr => absurd hr (h.node q).2.2⟩
 
-/-- **C31 (terms), partial**: without a crash and without a learner restart the notified terms of every node
-    are non-decreasing on every schedule. -/
-theorem notif_terms_monotone_partial (c0 : Cluster) (ls : List Label) (p : Nat) (h0 : Fresh c0)
-    (hp : NoPubsYet c0) (hs : traceAll noResetB c0 ls = true) :
+/-- **C31 (terms), full strength**: on every schedule the notified terms of every node are non-decreasing. -/
+theorem notif_terms_monotone (c0 : Cluster) (ls : List Label) (p : Nat) (h0 : Fresh c0) (hp : NoPubsYet c0) :
     sortedLE (pubTerms (pubsOf (run c0 ls) p)) = true :=
-  sortedLE_of_pubOK (pubOK_run ls c0 h0.down hs (pubOK_of_fresh h0 hp) p)
+  sortedLE_of_pubOK (pubOK_run ls c0 h0.down (pubOK_of_fresh h0 hp) p)
 
 /-! ### truthfulness and one leader per term -/
 
-def NotifTruthfulStatement : Prop :=
-  ∀ (V : List Nat) (c0 : Cluster) (ls : List Label) (p : Nat), Fresh c0 → NoPubsYet c0 →
-    traceAll (envB V) c0 ls = true → traceAll noTriggerB c0 ls = true →
-    pubsTruthful (pubsOf (run c0 ls) p) (leaderPairs (run c0 ls)) = true
-
-/-- F28: node 1 leads term 2 (noop committed, `(1, 2)` published); node 2 wins term 3 with node 3's vote; its
-    heartbeat reaches node 1, which is still leader of term 2: `(2, 2)` is published before `(2, 3)`. -/
+/-- former F28 witness: node 1 leads term 2 (noop committed, `(1, 2)` published); node 2 wins term 3 with node
+    3's vote; its heartbeat reaches node 1, which is still leader of term 2. -/
 def f28Trace : List Label :=
   [.timeout 1, .start 1, .deliver 1 2, .finish 1 true, .noopCommitted 1, .timeout 2, .start 2, .deliver 2 3,
    .finish 2 true, .heartbeat 2 1]
 
-theorem f28_notifs : pubsOf (run c3 f28Trace) 1 = [some (1, 2), some (2, 2), some (2, 3)] ∧
+/-- regression: `(2, 2)` is no longer published -/
+theorem f28_regression : pubsOf (run c3 f28Trace) 1 = [some (1, 2), some (2, 3)] ∧
     leaderPairs (run c3 f28Trace) = [(2, 3), (1, 2)] := by decide
 
-/-- **The code as it is violates C31** — F28, on a schedule free of the C01 triggers. -/
-theorem notif_truthful_false_F28 : ¬ NotifTruthfulStatement := by
-  intro h
-  have := h [1, 2, 3] c3 f28Trace 1 (fresh_freshCluster _ _) noPubsYet_c3 (by decide) (by decide)
-  rw [f28_notifs.1, f28_notifs.2] at this
-  revert this; decide
-
-def noF28B (c : Cluster) : Label → Bool
-  | .appendEntries p t _ => !((c.proc p).node.role == .leader && decide ((c.proc p).node.term < t))
-  | .heartbeat l p => !((c.proc p).node.role == .leader && decide ((c.proc p).node.term < (c.proc l).node.term))
-  | _ => true
-
-theorem noF28_of (c : Cluster) (l : Label) (h : noF28B c l = true) : NoF28 c l := by
-  cases l <;> simp_all [noF28B, NoF28] <;> (intro hr; rcases h with h | h; exact absurd hr h; exact h)
-
-theorem noReset_of_safe {V : List Nat} {c : Cluster} {l : Label} (h : Safe V c l) :
-    NoReset c l ∧ ∀ p, l ≠ .crash p := by
-  cases l <;> simp_all [Safe, NoReset]
-
 theorem tinv_run {V : List Nat} : ∀ (ls : List Label) (c : Cluster), Inv V c → (∀ q, PubOK (c.proc q).node) →
-    TInv c → SafeTrace V c ls → traceAll noF28B c ls = true →
-    Inv V (run c ls) ∧ TInv (run c ls)
-  | [], _, h, _, ht, _, _ => ⟨h, ht⟩
-  | l :: ls, c, h, hp, ht, hs, hn => by
-    simp only [traceAll, Bool.and_eq_true] at hn
-    obtain ⟨hnr, _⟩ := noReset_of_safe hs.1
+    TInv c → SafeTrace V c ls → Inv V (run c ls) ∧ TInv (run c ls)
+  | [], _, h, _, ht, _ => ⟨h, ht⟩
+  | l :: ls, c, h, hp, ht, hs => by
     simp only [run, List.foldl_cons]
-    exact tinv_run ls (step c l) (inv_step h l hs.1) (fun q => pubOK_step c h.d l hnr q (hp q))
-      (tinv_step h hp ht l hs.1 (noF28_of c l hn.1)) hs.2 hn.2
+    exact tinv_run ls (step c l) (inv_step h l hs.1) (fun q => pubOK_step c h.d l q (hp q))
+      (tinv_step h hp ht l hs.1) hs.2
 
 theorem mem_leaderPairs {c : Cluster} {l t : Nat} (h : c.isL l t) : (l, t) ∈ leaderPairs c := by
   obtain ⟨Q, hQ⟩ := h
   exact List.mem_map.mpr ⟨(l, t, Q), hQ, rfl⟩
 
-/-- **C31 (truthfulness), partial**: every notified `(leader, term)` is a recorded `BecomeLeader(leader, term)`,
-    on every schedule that avoids the C01 triggers and the F28 trigger. -/
-theorem notif_truthful_partial (V : List Nat) (c0 : Cluster) (ls : List Label) (p : Nat) (h0 : Fresh c0)
-    (hp : NoPubsYet c0) (he : traceAll (envB V) c0 ls = true) (hn : traceAll noTriggerB c0 ls = true)
-    (hf : traceAll noF28B c0 ls = true) :
+/-- **C31 (truthfulness)**: every notified `(leader, term)` is a recorded `BecomeLeader(leader, term)`, on every
+    schedule of a static-membership cluster (C01 environment assumptions only). -/
+theorem notif_truthful (V : List Nat) (c0 : Cluster) (ls : List Label) (p : Nat) (h0 : Fresh c0)
+    (hp : NoPubsYet c0) (he : traceAll (envB V) c0 ls = true) :
     pubsTruthful (pubsOf (run c0 ls) p) (leaderPairs (run c0 ls)) = true := by
   have ht0 : TInv c0 := by intro q l t hm; rw [hp q] at hm; cases hm
-  obtain ⟨_, ht⟩ := tinv_run ls c0 (inv_of_fresh V c0 h0) (pubOK_of_fresh h0 hp) ht0 (safeTrace_of V ls c0 he hn) hf
+  obtain ⟨_, ht⟩ := tinv_run ls c0 (inv_of_fresh V c0 h0) (pubOK_of_fresh h0 hp) ht0 (safeTrace_of V ls c0 he)
   unfold pubsTruthful pubsOf
   rw [List.all_eq_true]
   intro x hx
@@ -146,19 +97,16 @@ theorem notif_truthful_partial (V : List Nat) (c0 : Cluster) (ls : List Label) (
     simp only [List.contains_iff_mem]
     exact mem_leaderPairs (ht p l t (List.mem_reverse.mp hx))
 
-/-- **C31 (one leader per term), partial**: two notifications for the same term, on any two nodes, name the same
-    leader. -/
-theorem notif_one_leader_per_term_partial (V : List Nat) (c0 : Cluster) (ls : List Label) (h0 : Fresh c0)
-    (hp : NoPubsYet c0) (he : traceAll (envB V) c0 ls = true) (hn : traceAll noTriggerB c0 ls = true)
-    (hf : traceAll noF28B c0 ls = true) (p q l l' t : Nat)
+/-- **C31 (one leader per term)**: two notifications for the same term, on any two nodes, name the same leader. -/
+theorem notif_one_leader_per_term (V : List Nat) (c0 : Cluster) (ls : List Label) (h0 : Fresh c0)
+    (hp : NoPubsYet c0) (he : traceAll (envB V) c0 ls = true) (p q l l' t : Nat)
     (h1 : some (l, t) ∈ pubsOf (run c0 ls) p) (h2 : some (l', t) ∈ pubsOf (run c0 ls) q) : l = l' := by
   have ht0 : TInv c0 := by intro q l t hm; rw [hp q] at hm; cases hm
-  obtain ⟨hi, ht⟩ := tinv_run ls c0 (inv_of_fresh V c0 h0) (pubOK_of_fresh h0 hp) ht0 (safeTrace_of V ls c0 he hn) hf
+  obtain ⟨hi, ht⟩ := tinv_run ls c0 (inv_of_fresh V c0 h0) (pubOK_of_fresh h0 hp) ht0 (safeTrace_of V ls c0 he)
   exact hi.unique_leader (ht p l t (List.mem_reverse.mp h1)) (ht q l' t (List.mem_reverse.mp h2))
 
-/-- non-vacuity: `okTrace` of C01 satisfies every hypothesis and produces notifications -/
-example : traceAll noF28B c3 okTrace = true ∧ traceAll noResetB c3 okTrace = true ∧
-    pubsOf (run c3 okTrace) 3 = [some (1, 2)] ∧ pubsOf (run c3 okTrace) 2 = [some (2, 3)] := by decide
-
+/-- non-vacuity: `okTrace` of C01 and the former F28 / F2 witnesses satisfy the hypotheses and notify -/
+example : traceAll (envB [1, 2, 3]) c3 f28Trace = true ∧ traceAll (envB [1, 2, 3]) c3 f2Notif = true ∧
+    pubsOf (run c3 okTrace) 3 = [some (1, 2)] := by decide
 
 end DEngine.C31
